@@ -236,6 +236,7 @@ type gfol struct {
 }
 
 func (w *world) do(t *trace.W, op string) string {
+	w.keepalives(t)
 	t0 := time.Now()
 	obs := w.exec(op)
 	if d := time.Since(t0); d > 300*time.Millisecond && os.Getenv("VERIF_SLOWOPS") != "" {
